@@ -28,12 +28,13 @@ Proof. reflexivity. Qed.
 Lemma lwalk_sim nodes : forall k d, (d + k = 4)%nat ->
   forall cc prev cur fuel nl low high,
   lin_group nodes d cc cur = true -> group_shape prev cc = true -> cc <> [] ->
+  N.of_nat (cur + length cc) <= 65532 ->
   (length cc + 256 * (k - 1) <= fuel)%nat ->
   lwalk fuel nodes cur nl low high = Some (tr_group low high cc nl).
 Proof.
   induction k as [|k IHk]; intros d Hdk.
   { (* depth 4: no group is validated there *)
-    intros cc prev cur fuel nl low high Hg Hsh Hne _.
+    intros cc prev cur fuel nl low high Hg Hsh Hne _ _.
     destruct cc as [|[h n'] r]; [congruence|].
     rewrite lin_group_cons in Hg. destruct (nth_error nodes cur) as [ln|]; [|discriminate].
     rewrite !andb_true_iff in Hg. destruct Hg as [[_ Hn] _].
@@ -42,12 +43,12 @@ Proof.
     - rewrite lin_node_leaf in Hn. rewrite !andb_true_iff in Hn. destruct Hn as [_ Hn]. apply Nat.leb_le in Hn. lia.
     - rewrite lin_node_sub in Hn. rewrite !andb_true_iff in Hn. destruct Hn as [[[[_ Hn] _] _] _].
       apply Nat.ltb_lt in Hn. lia. }
-  induction cc as [|[h n'] r IHr]; intros prev cur fuel nl low high Hg Hsh Hne Hfuel; [congruence|].
+  induction cc as [|[h n'] r IHr]; intros prev cur fuel nl low high Hg Hsh Hne Hend Hfuel; [congruence|].
   rewrite lin_group_cons in Hg. destruct (nth_error nodes cur) as [ln|] eqn:Enth; [|discriminate].
   rewrite !andb_true_iff in Hg. destruct Hg as [[Hb Hn] Hgr]. apply N.eqb_eq in Hb.
   cbn [group_shape] in Hsh. rewrite !andb_true_iff in Hsh. destruct Hsh as [[Hprev Hh] Hshr].
   apply N.ltb_lt in Hh.
-  destruct fuel as [|fuel]; [cbn [length] in Hfuel; lia|]. cbn [length] in Hfuel.
+  destruct fuel as [|fuel]; [cbn [length] in Hfuel; lia|]. cbn [length] in Hfuel, Hend.
   cbn [lwalk]. rewrite Enth, Hb. rewrite tr_group_cons.
   assert (Hhere : (if child ln =? 0 then Some [(low ++ [nl], high ++ [h])]
                    else if 65532 <=? child ln then Some []
@@ -66,11 +67,13 @@ Proof.
       pose proof (group_shape_length cc' None Hsh') as Hlen. cbv iota beta in Hlen.
       apply (IHk (S d) ltac:(lia) cc' None); try assumption.
       + intro E; subst cc'. discriminate Hsh'.
+      + lia.
       + lia. }
   rewrite Hhere. clear Hhere.
   destruct (h =? 255) eqn:E255; [rewrite app_nil_r; reflexivity|].
   assert (Hrne : r <> []).
   { intro E; subst r. cbn [group_shape] in Hshr. rewrite Hshr in E255. discriminate. }
+  rewrite cur_succ_small by lia.
   rewrite (IHr (Some h) (S cur) fuel (h + 1) low high Hgr Hshr Hrne) by lia. reflexivity.
 Qed.
 
@@ -83,6 +86,7 @@ Proof.
   pose proof (group_shape_length t None Hsh) as Hlen. cbv iota beta in Hlen.
   apply (lwalk_sim nodes 4 0 eq_refl t None); try assumption.
   - intro E; subst t. discriminate Hsh.
+  - lia.
   - lia.
 Qed.
 
